@@ -785,10 +785,16 @@ fn size_boundary_case(idx: u64, rng: &mut Prng, col: &mut Collector) {
         return;
     }
     let len = if over { m + 1 } else { m };
-    // MACPayload = FHDR (7, no FOpts) + FPort (1) + FRMPayload
-    let payload = rng.bytes(len - 8);
+    // MACPayload = FHDR (7 + FOpts) + FPort (1) + FRMPayload. Half of the frames carry 1..15 octets of
+    // FOpts (DevStatusReq, one octet each): they are part of the MACPayload the limit is about
+    let k = if rng.bool() { 1 + rng.below(15) as usize } else { 0 };
+    if k > 0 {
+        col.event("size_boundary_frames_with_fopts");
+    }
+    let fopts = vec![0x06u8; k];
+    let payload = rng.bytes(len - 8 - k);
     let fcnt = link.fdown + 1;
-    let frame = link.net.downlink(&Down { fcnt, port: Some(rng.range(1, 200) as u8), payload: &payload, ..Default::default() });
+    let frame = link.net.downlink(&Down { fcnt, port: Some(rng.range(1, 200) as u8), payload: &payload, f_opts: &fopts, ..Default::default() });
     let before = link.dev.fcnt_down();
     let t = link.txn(&[3], 7, false, &Script::rx2(frame.clone()));
     if let Resp::Panic(mm, l) = &t.resp {
